@@ -173,3 +173,114 @@ def key_of(clause, site, input_key=""):
     if clause.startswith("Render."):
         return "%s:%s" % (clause.lower().replace(".", "-"), site)
     return "%s@%s" % (clause, site)
+
+
+# ------------------------------------------------------------------------------------------------
+# the binding bites: corrupted copies of a good recorded compilation must be blamed
+# ------------------------------------------------------------------------------------------------
+
+def _find_compilation(events, want):
+    """(prefix, compilation): the first recorded compilation (events from Compile to Report) satisfying
+    `want`, and everything its process did before it (so that cache and counter are what they were)."""
+    cur = None
+    start = 0
+    for k, e in enumerate(events):
+        if e["ev"] == "Compile":
+            cur = [e]
+            start = k
+        elif cur is not None:
+            cur.append(e)
+            if e["ev"] in ("Report", "Exception", "Timeout"):
+                if e["ev"] == "Report" and want(cur):
+                    return events[:start], cur
+                cur = None
+    return None
+
+
+def corruption_selftest(chk, sc, streams):
+    """Take good recorded compilations, corrupt one recorded field / drop one event, and require the
+    monitor to blame exactly that (BUILDING.md rule 10).  Raises MachineryError if a corruption passes."""
+    import copy
+    from . import pipe_worker
+    events = []
+    for s in streams:
+        events = pipe_worker.read_stream(s)
+        if events and events[0]["ev"] == "Start" and sum(1 for e in events if e["ev"] == "Pass") > 30:
+            break
+    ok_full = _find_compilation(events, lambda c: c[-1]["kind"] == "done" and sum(1 for e in c if e["ev"] == "Pass") == NPASS
+                                and any(e["ev"] == "Tok" for e in c))
+    ok_err = _find_compilation(events, lambda c: c[-1]["kind"] == "errors" and c[-1]["errors"] and c[-1]["plain"] == "ok"
+                               and any(e["ev"] == "Pass" and e["groups"] for e in c))
+    if ok_full is None or ok_err is None:
+        chk.extra["corruption_selftest"] = "skipped: no suitable recorded compilation"
+        return
+    cases = []
+
+    def variant(name, base, fn, expect):
+        prefix, comp = base
+        c = copy.deepcopy(comp)
+        c = fn(c) or c
+        c[0]["tid"] = "selftest:" + name
+        cases.append((name, expect, prefix + c))
+
+    def swap_passes(c):
+        i = [k for k, e in enumerate(c) if e["ev"] == "Pass"]
+        c[i[3]], c[i[4]] = c[i[4]], c[i[3]]
+
+    def drop_pass(c):
+        i = [k for k, e in enumerate(c) if e["ev"] == "Pass"]
+        del c[i[6]]
+
+    def report_errors_instead(c):
+        c[-1]["kind"] = "errors"
+
+    def drop_report_errors(c):
+        c[-1]["kind"] = "done"
+        c[-1]["errors"] = []
+
+    def bad_position(c):
+        c[-1]["errors"][0][0]["l1"] = 0
+
+    def synthetic(c):
+        c[-1]["errors"][0][0]["syn"] = True
+
+    def unknown_file(c):
+        c[-1]["errors"][0][0]["file"] = "n:never-heard-of.emb"
+
+    def pass_after_error(c):
+        i = max(k for k, e in enumerate(c) if e["ev"] == "Pass")
+        c.insert(i + 1, {"ev": "Pass", "k": c[i]["k"] + 1, "name": "x", "groups": []})
+
+    def wrong_counter(c):
+        for e in c:
+            if e["ev"] == "Bld":
+                e["ids"] = [x + 1000 for x in e["ids"]] or [1000]
+                return
+
+    def render_failed(c):
+        c[-1]["plain"] = "IndexError@selftest"
+
+    variant("swap-two-passes", ok_full, swap_passes, "PassOrder.pass-out-of-order")
+    variant("drop-a-pass", ok_full, drop_pass, "PassOrder.pass-out-of-order")
+    variant("errors-from-nowhere", ok_full, report_errors_instead, "Total.errors-from-nowhere")
+    variant("counter", ok_full, wrong_counter, "Counter.anonymous-numbering")
+    variant("errors-dropped", ok_err, drop_report_errors, "EarlyExit.errors-dropped")
+    variant("position-outside", ok_err, bad_position, "WF.position-inside-file")
+    variant("synthetic-location", ok_err, synthetic, "WF.synthetic-location")
+    variant("unknown-file", ok_err, unknown_file, "WF.file-known")
+    variant("pass-after-error", ok_err, pass_after_error, "EarlyExit.pass-after-errors")
+    variant("render-failed", ok_err, render_failed, "Render.plain")
+    path = sc.file("selftest.ndjson")
+    with open(path, "w") as f:
+        for _n, _x, evs in cases:
+            for e in evs:
+                f.write(json.dumps(e) + "\n")
+    verdicts, _ = validate_streams(chk, sc, [path], part="corruption-selftest")
+    blamed = {}
+    for v in verdicts:
+        blamed.setdefault(v["tid"], set()).update(c for c, _s in v["clauses"])
+    missed = [n for n, x, _e in cases if x not in blamed.get("selftest:" + n, set())]
+    chk.extra["corruption_selftest"] = {"corruptions": len(cases), "rejected": len(cases) - len(missed)}
+    if missed:
+        raise MachineryError("trace validation is vacuous: corrupted recordings were accepted: %s (blamed: %s)"
+                             % (missed, {k: sorted(v) for k, v in blamed.items()}))
